@@ -219,7 +219,7 @@ example : exV.containsNode = true := by decide
 example : eval (gather exSt exV).1 (gather exSt exV).2 =
     .list none [.atom 1, .list (some 8) [.atom 2], .opaque 9 true [.node 1],
       .dict none [(.tuple (some 5) [.atom 7], .app 3 [] [])]] := by rfl
-example : (gather exSt exV).1.nodes.length = 12 := by decide
+example : (gather exSt exV).1.nodes.length = 10 := by decide
 example : gather exSt (.list 8 [.atom 2]) = lit exSt (.list 8 [.atom 2]) := by rfl
 example : eval exSt2 4 = .app 4 [.app 3 [] [], .atom 1] [("zz", .app 3 [] []), ("a", .atom 1), ("k", .app 3 [] [])] := by rfl
 example : getArgumentNodes [⟨1, 4, .kw "a" 1⟩, ⟨0, 4, .pos 1⟩, ⟨1, 4, .kw "zz" 0⟩, ⟨1, 4, .pos 0⟩] 4
